@@ -939,6 +939,22 @@ func c19Encodings(c *Ctx, r *Report) {
 	}
 	find := c.SSAFunc(c.LookupFunc("pkg/lib", "FindInputEncoding"))
 	a, b := suffixes(rd), suffixes(find)
+	// the read path may simply ask FindInputEncoding: one table, nothing to disagree
+	if rd != nil && find != nil && len(a) == 0 && len(b) >= 3 {
+		delegates := false
+		for _, bb := range rd.Blocks {
+			for _, in := range bb.Instrs {
+				if call, ok := in.(*ssa.Call); ok && call.Call.StaticCallee() == find {
+					delegates = true
+				}
+			}
+		}
+		if delegates {
+			r.OK("R19.9", "suffix tables", c.Rel(rd.Pos()), "the read path has no suffix tests of its own: it calls FindInputEncoding")
+			r.Floor("R19.9", "file-name suffixes of FindInputEncoding", len(b), 3)
+			return
+		}
+	}
 	if a == nil || b == nil || len(a) == 0 {
 		r.Undecided("R19.9", "suffix tables", "", "the read path's or FindInputEncoding's suffix tests were not found")
 		return
